@@ -25,7 +25,11 @@ def nonneg (v : V) : Bool := match v with | .fin q => decide (q ≥ 0) | .nan =>
 /-- acceptable values of the weighted quantile allowing for rounding of W·q against the cumulative sums -/
 def wquantAccept (ps : List (Rat × Rat)) (W q : Rat) : List Rat :=
   let t := W * q
-  let d := 16 * eps * (ps.length + 1 : Nat) * (ratAbs W + 1)
+  -- whole-number weights and a whole-number target W·q that is itself a float64: the code's product and every one
+  -- of its subtractions are exact, so there is nothing to be ambiguous about (q = 3/4 of total weight 4 is the
+  -- fourth unit, not "the third or the fourth")
+  let exact := ps.all (fun p => p.2.den == 1 && p.2 ≥ 0) && W < pow2 50 && t.den == 1 && roundF64 q == q
+  let d := if exact then 0 else 16 * eps * (ps.length + 1 : Nat) * (ratAbs W + 1)
   [wquant ps (t - d), wquant ps t, wquant ps (t + d)]
 
 def quantAccept (s : S) (q : Rat) : Option (List Rat × Rat) :=   -- (acceptable centres, tolerance)
